@@ -15,6 +15,7 @@ import (
 
 	"github.com/gookit/rux"
 	"github.com/gookit/rux/pkg/binding"
+	"github.com/gookit/rux/pkg/handlers"
 	"github.com/gookit/validate"
 )
 
@@ -73,7 +74,9 @@ func (c18Configured) ConfigValidation(v *validate.Validation) {
 	v.StringRule("Age", "min:1")
 }
 
-var c18Strings = []string{"", "a", "héllo wörld", "a&b=c", "x;y", "1,2", "<tag>", "\"q\"", "tab\there", "日本", "a+b c", "%41", "line\nbreak"}
+var c18Strings = []string{"", "a", "héllo wörld", "a&b=c", "x;y", "1,2", "<tag>", "\"q\"", "tab\there", "日本", "a+b c", "%41", "line\nbreak",
+	// bodies longer than the usual peek / buffer sizes (512, 4096)
+	strings.Repeat("long text 0123456789 ", 30), strings.Repeat("0123456789abcdef", 300)}
 
 func c18MakeVal(r *Rng) c18Val {
 	v := c18Val{ID: r.Intn(2000) - 1000, Name: r.Pick(c18Strings), Ok: r.Bool(), Score: int64(r.Next() >> 20)}
@@ -86,6 +89,9 @@ func c18MakeVal(r *Rng) c18Val {
 func c18Multipart(fields url.Values) (string, *bytes.Buffer) {
 	var buf bytes.Buffer
 	mw := multipart.NewWriter(&buf)
+	if len(fields)%2 == 0 { // a boundary as browsers send it (mixed case); the default one is lower-case hex
+		_ = mw.SetBoundary("----WebKitFormBoundary7MA4YWxkTrZu0gW")
+	}
 	for k, vs := range fields {
 		for _, v := range vs {
 			_ = mw.WriteField(k, v)
@@ -191,6 +197,9 @@ func c18Auto(req *http.Request, obj any, k int) error {
 	var err error
 	ran := false
 	r := rux.New()
+	if k%5 == 2 { // the shipped request logger in front (its output is discarded, see main)
+		r.Use(handlers.RequestLogger())
+	}
 	r.Any(req.URL.Path, func(c *rux.Context) {
 		ran = true
 		switch {
@@ -304,7 +313,7 @@ func c18Exec(c Sx) (out Sx) {
 		fm := c.List[1].Sym()
 		req := c18Req(fm, v, c18Values(v))
 		var got c18Val
-		if err := c18Auto(req, &got, len(c.String())); err != nil {
+		if err := c18Auto(req, &got, c.List[2].Int()); err != nil { // (the entry point varies with the case's seed)
 			return L(A("rt"), A("err"))
 		}
 		got.XMLName, v.XMLName = xml.Name{}, xml.Name{}
